@@ -244,7 +244,8 @@ def fam_param(R, rot, la, sw, neg=(False, False), case='fit', radii='2x1', u1='q
             done = False
             if isinstance(val, NonFinite) and hasattr(val, 'inp'):
                 # the real constructor would produce NaN here: replay a model of this path
-                r_, m_ = R.witness(ctx, 'non-finite-path', extra=[zabs(v.e) <= 9 for v in (val.inp['C'].real, val.inp['C'].imag)])
+                from ..symx import check_sat as _cs
+                r_, dt_, m_ = _cs(ctx, [zabs(v.e) <= 9 for v in (val.inp['C'].real, val.inp['C'].imag)], 20000)     # an infeasible path (entered through an undecided branch) is not an error
                 if r_ == 'sat' and m_ is not None:
                     src = conc_arc_src(m_, val.inp, la, sw, neg)
                     done = R.direct_cex('constructor-stays-finite', {'cls': 'Arc F.6.5 conformance', 'inputs': {'arc': src},
